@@ -326,6 +326,19 @@ func c10Draw(r *simrt.Rng, vg *gen.G, s *treeState, faults bool) (Op, bool) {
 	if lt.NewEntry {
 		op.A["newentry"] = "1"
 	}
+	if lt.Field.Type.Kind() == reflect.Slice && lt.Field.Type.Name() != "Binary" {
+		op.A["leaflist"] = "1"
+	}
+	if sp := lt.Field.Tag.Get("shadow-path"); sp != "" && r.Intn(6) == 0 {
+		// address the field through its shadow path, with PreferShadowPath on both calls
+		alts := strings.Split(sp, "|")
+		rel := strings.Split(lt.Field.Tag.Get("path"), "|")[0]
+		n := len(relElems(rel))
+		es := append(append([]model.Elem{}, lt.Elems[:len(lt.Elems)-n]...), relElems(alts[0])...)
+		op.A["path"] = model.FormatPath(es)
+		op.A["shadow"] = "1"
+		path = op.A["path"]
+	}
 	enc := []string{"tv", "tv", "json"}[r.Intn(3)]
 	var tv *gpb.TypedValue
 	switch enc {
@@ -398,6 +411,10 @@ func c10Apply(s *treeState, op Op) *Violation {
 	if op.arg("tolerate") == "1" {
 		opts = append(opts, &ytypes.TolerateJSONInconsistencies{})
 	}
+	preferShadow := op.arg("shadow") == "1"
+	if preferShadow {
+		opts = append(opts, &ytypes.PreferShadowPath{})
+	}
 	before := s.model()
 	var err error
 	if p := callSUT(func() { err = ytypes.SetNode(s.sch, s.root, model.ToGNMI(pes), tv, opts...) }); p != nil {
@@ -439,13 +456,23 @@ func c10Apply(s *treeState, op Op) *Violation {
 	}
 	s.st.Probes["state_changes"]++
 	want := op.arg("want")
-	if v := c10Frame(before, after, pes, path, want, "C10:frame:"+ctx); v != nil {
+	if op.arg("leaflist") == "1" {
+		s.st.Probes["set_ok:leaf-list"]++
+	}
+	if preferShadow {
+		s.st.Probes["set_ok:shadow-path"]++
+	}
+	if v := c10Frame(before, after, pes, path, want, "C10:frame:"+ctx, preferShadow); v != nil {
 		return v
 	}
 	// GetNode returns exactly one node holding the value, in the leaf's Go type
 	var nodes []*ytypes.TreeNode
 	var gerr error
-	if p := callSUT(func() { nodes, gerr = ytypes.GetNode(s.sch, s.root, model.ToGNMI(pes)) }); p != nil {
+	var gopts []ytypes.GetNodeOpt
+	if preferShadow {
+		gopts = append(gopts, &ytypes.PreferShadowPath{})
+	}
+	if p := callSUT(func() { nodes, gerr = ytypes.GetNode(s.sch, s.root, model.ToGNMI(pes), gopts...) }); p != nil {
 		return violation("C10", "panic", "C10:panic:get:"+ctx, "GetNode(%s) panicked: %v", path, p.v)
 	}
 	if gerr != nil || len(nodes) != 1 {
@@ -481,11 +508,12 @@ func c10GoType(dv reflect.Value, fieldType string) string {
 
 // c10Frame checks that a set changed only the target leaf plus the key leaves of list
 // entries created on the way to it. want=="" skips the target value check.
-func c10Frame(before, after *model.Model, pes []model.Elem, path, want, sig string) *Violation {
+func c10Frame(before, after *model.Model, pes []model.Elem, path, want, sig string, preferShadow ...bool) *Violation {
+	ps := len(preferShadow) > 0 && preferShadow[0]
 	bf, af := before.Flat(), after.Flat()
 	target := ""
 	for q, l := range after.Leaves {
-		for _, a := range l.Addressable(false) {
+		for _, a := range l.Addressable(ps) {
 			if model.FormatPath(model.ParsePath(a)) == path {
 				target = q
 			}
@@ -526,6 +554,11 @@ func c10Frame(before, after *model.Model, pes []model.Elem, path, want, sig stri
 				name := qes[len(qes)-1].Name
 				if kv, has := pes[n-1].Keys[name]; has && kv == model.KeyString(l.Field) {
 					okKey = true
+					// where the union's first member is an unrestricted string, the key named
+					// by the path is that string, whatever it looks like
+					if gen.UnrestrictedStringFirst(gen.EffType(l.Schema)) && !strings.HasPrefix(af[q], "s:") {
+						return violation("C10", "frame", sig+":key-member", "SetNode(%s) created key leaf %s = %s, but the union's first member (an unrestricted string) accepts the key named in the path", path, q, af[q])
+					}
 				}
 			}
 		}
